@@ -226,7 +226,18 @@ func (g *GRU) String() string {
 
 // extractXt extracts the value of x for timestep t.
 func (g *GRU) extractXt(X tensor.Tensor, t int) (tensor.Tensor, error) {
-	return X.Slice(ops.NewSlicer(t, t+1), nil, nil)
+	XtView, err := X.Slice(ops.NewSlicer(t, t+1), nil, nil)
+	if err != nil {
+		return nil, err
+	}
+
+	// Slicing one sample with one feature yields a scalar: restore (batch, input).
+	Xt := XtView.Materialize()
+	if err = Xt.Reshape(X.Shape()[1], X.Shape()[2]); err != nil {
+		return nil, err
+	}
+
+	return Xt, nil
 }
 
 func (g *GRU) gateCalculation(
